@@ -671,6 +671,10 @@ def runOp (op : String) (args : List String) : String :=
     match parseSession sess with
     | some cs => countRereq 0 Parse.PState.empty cs 0
     | none => "bad-op"
+  | "rereqcmd", [sess] =>   -- the same while a platform command is outstanding: commands do not touch the transfers
+    match parseSession sess with
+    | some cs => countRereq 0 Parse.PState.empty cs 0
+    | none => "bad-op"
   | "psess", [sess] =>
     match parseSession sess with
     | some cs => runSession 0 Parse.PState.empty cs []
